@@ -27,7 +27,7 @@ META = dict(
         "text->number boundary: digit placeholders, int shadowed in the psutil modules' globals",
     ],
     stubs=["open() of /proc/<pid>/{statm,smaps,smaps_rollup}, /proc/meminfo", "os.stat answering a symbolic yes/no for the ' (deleted)' path"],
-    bounds=dict(quick=dict(mappings="0..2", rollup=["present", "absent", "ENOENT", "ESRCH"]), thorough=dict(mappings="0..4", rollup=["present", "absent", "ENOENT", "ESRCH"])),
+    bounds=dict(quick=dict(mappings="0..2", rollup=["present", "absent", "ENOENT", "ESRCH"]), thorough=dict(mappings="0..3 with every roll-up state, 4 with the roll-up absent", rollup=["present", "absent", "ENOENT", "ESRCH"])),
     outside=["mapping paths with symbolic characters (concrete witnesses: blanks, tab, colon, ' (deleted)', non-UTF-8 bytes)", "more than 4 mappings"],
     labels=["memory_info-pages-times-pagesize", "uss-pss-swap[present]", "uss-pss-swap[absent]", "uss-pss-swap[enoent]", "row-identity", "row-figures", "one-row-per-distinct-path", "grouped-sums",
             "memory_percent-formula", "memory_percent-invalid-ValueError"],
@@ -68,7 +68,7 @@ def build(ctx, k, m, rollup):
 
 
 @harness("C13.maps", quick=[dict(m=m, rollup=r) for m in (0, 1, 2) for r in ("present", "absent", "enoent")] + [dict(m=1, rollup="esrch")],
-         thorough=[dict(m=m, rollup=r) for m in (0, 1, 2, 3, 4) for r in ("present", "absent", "enoent", "esrch")])
+         thorough=[dict(m=m, rollup=r) for m in (0, 1, 2, 3) for r in ("present", "absent", "enoent", "esrch")] + [dict(m=4, rollup="absent")])
 def maps_(ctx, m, rollup):
     k = simk.Kernel(ctx)
     simk.system_files(k)
